@@ -2,6 +2,7 @@ import AdfObdd.AdfPipeline
 import AdfObdd.Bridge
 import AdfObdd.IsoCheck
 import AdfObdd.PreGround
+import AdfObdd.FromParserProofs
 /-! # C09 — compilation to diagrams preserves every acceptance condition (native + bridge) -/
 namespace C09
 
@@ -42,5 +43,99 @@ theorem pregrounded_function (D : List BoolFn) (g : I3) (i : Nat) (f : BoolFn) (
     (pre D g)[i]? = some (fun σ => f (over σ 0 g)) := pre_get D g i f h
 
 example : (Fm.and (.atom 0) (.not (.atom 1))).atomsOK := by simp [Fm.atomsOK, VBOT]
+
+end C09
+
+/-! ## `from_parser` on files with the facts in ANY order (`FromParser`, `FromParserProofs`)
+
+`FromParser.fromParser : PState → Option (Store × List Nat)` is `Adf::from_parser` on the parser object
+(`none` = panic): variables `0 .. dict_size`, `ac = vec![Term(0); dict_size]`, then every condition in
+FILE order compiled on the running store and written at `formula_order[k]`, atoms resolved through the
+dictionary. `condFns fs` = for the `p`-th declared label the index-level Boolean function of the LAST
+condition written for it (⊥ if none). `from_parser_correct` above (`buildNative`) is the special case
+"one condition per statement, in declaration order" (`FromParser.buildNative_eq_placeCompile`). -/
+namespace C09
+open ParserM FromParser
+
+/-- `from_parser` panics exactly on the files that are not well-formed ADFs: some condition is
+given for an undeclared label (the `expect` in `formula_order`) or mentions an undeclared label
+(the `expect` in `term`); declarations may follow their uses -/
+theorem from_parser_panics_exactly (fs : List Fact) :
+    ((fromParser (PState.ofFacts fs)).isSome = true ↔ WellFormedAdf fs) ∧
+    (WellFormedAdf fs ↔ ∀ l f, Fact.ac l f ∈ fs → Fact.stmt l ∈ fs ∧ ∀ a ∈ atomsOf f, Fact.stmt a ∈ fs) := by
+  refine ⟨fromParser_isSome_iff fs, ?_⟩
+  constructor
+  · intro h l f hm
+    have ⟨h1, h2⟩ := h (l, f) ((acsOf_mem fs l f).mpr hm)
+    exact ⟨(namesOf_mem fs l).mp h1, fun a ha => (namesOf_mem fs a).mp (h2 a ha)⟩
+  · intro h lf hlf
+    have ⟨h1, h2⟩ := h lf.1 lf.2 ((acsOf_mem fs lf.1 lf.2).mp hlf)
+    exact ⟨(namesOf_mem fs lf.1).mpr h1, fun a ha => (namesOf_mem fs a).mpr (h2 a ha)⟩
+
+/-- whatever the order of the facts (conditions before declarations, conditions in another order
+than the declarations, no or several conditions for a statement): the built store is well formed and
+position `p` of `ac` is a valid handle of the function of the `p`-th declared statement's condition -/
+theorem from_parser_any_order_correct (fs : List Fact) (s : Store) (ac : List Nat)
+    (h : fromParser (PState.ofFacts fs) = some (s, ac)) (hn : (namesOf fs).length ≤ VBOT) :
+    WF s ∧ ac.length = (namesOf fs).length ∧ (∀ t ∈ ac, t < s.nodes.size) ∧ ac.map (eval s) = condFns fs :=
+  fromParser_correct fs s ac h hn
+
+/-- no condition: ⊥, and the entry is the initial `Term(0)`; several conditions: the last one -/
+theorem from_parser_zero_or_several (fs : List Fact) :
+    (∀ l, (∀ f, Fact.ac l f ∉ fs) → condOf fs l = .bot) ∧
+    (∀ (s : Store) (ac : List Nat) (p : Nat) (l : Label), fromParser (PState.ofFacts fs) = some (s, ac) → (namesOf fs)[p]? = some l →
+      (∀ f, Fact.ac l f ∉ fs) → ac[p]? = some 0) ∧
+    (∀ pre post l f, fs = pre ++ Fact.ac l f :: post → (∀ g, Fact.ac l g ∉ post) → condOf fs l = f) :=
+  ⟨fun l h => condOf_no_condition fs l h,
+   fun s ac p l h hp hno => fromParser_no_condition fs s ac h p l hp hno,
+   fun pre post l f e h => e ▸ condOf_last_wins pre post l f h⟩
+
+/-- two files with the same facts, the same order of declarations and at most one condition per
+statement: both are built and yield position-wise the same Boolean functions. Handles may differ
+(two stores, node numbers follow the compilation order — example below). -/
+theorem from_parser_any_fact_order (fs gs : List Fact) (hp : fs.Perm gs)
+    (hnames : namesOf fs = namesOf gs) (hone : ((acsOf fs).map (·.1)).Nodup)
+    (hwf : WellFormedAdf fs) (hn : (namesOf fs).length ≤ VBOT) :
+    ∃ s ac s' ac', fromParser (PState.ofFacts fs) = some (s, ac) ∧
+      fromParser (PState.ofFacts gs) = some (s', ac') ∧
+      ac.length = (namesOf fs).length ∧ ac'.length = (namesOf fs).length ∧
+      ac.map (eval s) = ac'.map (eval s') ∧
+      ∀ (p t t' : Nat), ac[p]? = some t → ac'[p]? = some t' → ∀ σ, eval s t σ = eval s' t' σ :=
+  fromParser_same_functions_any_fact_order fs gs hp hnames hone hwf hn
+
+/-- `ac(b,neg(b)). s(a). s(b). ac(a,neg(a)).` — the condition of `b` before every declaration, the
+conditions in the order b, a -/
+private def exA : List Fact :=
+  [.ac ['b'] (.not (.atom ['b'])), .stmt ['a'], .stmt ['b'], .ac ['a'] (.not (.atom ['a']))]
+/-- `s(a). ac(a,neg(a)). s(b). ac(b,neg(b)).` — the same facts in the usual order -/
+private def exB : List Fact :=
+  [.stmt ['a'], .ac ['a'] (.not (.atom ['a'])), .stmt ['b'], .ac ['b'] (.not (.atom ['b']))]
+
+/-- non-vacuity of `from_parser_any_fact_order`: all hypotheses hold for `exA`, `exB` -/
+example : ∃ s ac s' ac', fromParser (PState.ofFacts exA) = some (s, ac) ∧
+    fromParser (PState.ofFacts exB) = some (s', ac') ∧ ac.length = 2 ∧ ac'.length = 2 ∧
+    ac.map (eval s) = ac'.map (eval s') := by
+  have hp : exA.Perm exB := by decide
+  have ⟨s, ac, s', ac', h1, h2, h3, h4, h5, _⟩ := from_parser_any_fact_order exA exB hp
+    (by decide) (by decide) (by decide) (by simp [VBOT, exA, namesOf])
+  exact ⟨s, ac, s', ac', h1, h2, h3, h4, h5⟩
+-- … and the handles do differ: the nodes of ¬b and ¬a are created in the other order
+#guard (fromParser (PState.ofFacts exA)).map (·.2) == some [5, 4]
+#guard (fromParser (PState.ofFacts exB)).map (·.2) == some [4, 5]
+-- non-vacuity of `from_parser_panics_exactly`: a well-formed file with a use before the declaration,
+-- a condition for an undeclared label, an undeclared atom
+example : WellFormedAdf exA := by decide
+example : ¬ WellFormedAdf [.stmt ['a'], .ac ['b'] .top] := by decide
+example : ¬ WellFormedAdf [.stmt ['a'], .ac ['a'] (.atom ['b'])] := by decide
+#guard (fromParser (PState.ofFacts [.stmt ['a'], .ac ['b'] .top])).isNone
+#guard (fromParser (PState.ofFacts [.stmt ['a'], .ac ['a'] (.atom ['b'])])).isNone
+-- zero / several conditions: `s(a). s(b). ac(a,c(v)). ac(a,b).` — `a` gets `b` (last wins), `b` gets ⊥
+example : condOf [.stmt ['a'], .stmt ['b'], .ac ['a'] .top, .ac ['a'] (.atom ['b'])] ['a'] = .atom ['b'] ∧
+    condOf [.stmt ['a'], .stmt ['b'], .ac ['a'] .top, .ac ['a'] (.atom ['b'])] ['b'] = .bot := by decide
+#guard (fromParser (PState.ofFacts [.stmt ['a'], .stmt ['b'], .ac ['a'] .top, .ac ['a'] (.atom ['b'])])).map (·.2)
+  == some [3, 0]
+-- without "at most one condition per statement" the order of the facts matters
+#guard (fromParser (PState.ofFacts [.stmt ['a'], .stmt ['b'], .ac ['a'] (.atom ['b']), .ac ['a'] .top])).map (·.2)
+  == some [1, 0]
 
 end C09
